@@ -87,9 +87,12 @@ def execute(job):
                     u, uo = 1.0, 0.25
                     tr = PosePath3D(positions_xyz=np.array([p["p"] for p in c["traj"]], dtype=np.int64),
                                     orientations_quat_wxyz=np.array([geom.quat_wxyz(geom.rot(p["r"])) for p in c["traj"]]))
+                    stamped = False
                 else:
-                    tr = _build(c["traj"], u, None, None, built)
-                other = _build(c["other"], uo, None, None, "se3")
+                    stamped = (n // 5) % 2 == 1
+                    tr = _build(c["traj"], u, list(range(len(c["traj"]))) if stamped else None, geom.Clock(0, 1) if stamped else None, built)
+                # with timestamps the two trajectories are matched but not stamped identically (a few milliseconds apart)
+                other = _build(c["other"], uo, list(range(len(c["other"]))) if stamped else None, geom.Clock(0.004, 1) if stamped else None, "se3")
                 fig = plt.figure(figsize=(2, 2))
                 ax = plot.prepare_axis(fig, mode, length_unit=unit)
                 plot.traj(ax, mode, tr, plot_start_end_markers=True, label="t")
